@@ -45,6 +45,8 @@ type ICAPacket struct {
 	Timeout    uint64
 	BlockTime  time.Time
 	CapName    string
+	CapOwned   bool // the intertx module owned the channel capability when the packet was sent
+	CapArgOK   bool // ... and passed exactly that capability
 }
 
 type ICAReg struct{ Conn, Owner, Version string }
@@ -160,15 +162,15 @@ func (s stubController) SendTx(ctx sdk.Context, chanCap *capabilitytypes.Capabil
 	if !ok {
 		return 0, fmt.Errorf("no active channel for %s on %s", portID, connectionID)
 	}
+	// Like the controller keeper of ibc-go v7 this fake does not look at the capability argument
+	// (SendTx authenticates with the controller's own capability): whether the intertx module owned
+	// the channel capability is recorded, and judged by the checker (R4).
 	name := capName(portID, id)
 	idx, has := s.w.Caps[name]
-	if !has || chanCap == nil || chanCap.Index != idx {
-		return 0, fmt.Errorf("capability for %s not owned / does not authenticate", name)
-	}
 	if timeoutTimestamp <= uint64(ctx.BlockTime().UnixNano()) {
 		return 0, fmt.Errorf("timeout %d is not after block time", timeoutTimestamp)
 	}
-	p := ICAPacket{Conn: connectionID, Port: portID, Type: pd.Type, Data: append([]byte(nil), pd.Data...), Memo: pd.Memo, Timeout: timeoutTimestamp, BlockTime: ctx.BlockTime(), CapName: name}
+	p := ICAPacket{Conn: connectionID, Port: portID, Type: pd.Type, Data: append([]byte(nil), pd.Data...), Memo: pd.Memo, Timeout: timeoutTimestamp, BlockTime: ctx.BlockTime(), CapName: name, CapOwned: has, CapArgOK: has && chanCap != nil && chanCap.Index == idx}
 	if s.w.inTx {
 		s.w.txPkts = append(s.w.txPkts, p)
 	} else {
@@ -329,8 +331,12 @@ func (c *C20) AfterTx(w *World, t *TxCtx) {
 			w.Violate("R3", "timeout-not-one-minute-after-block-time", "packet timeout %d, block time %s + 1 minute = %d", p.Timeout, FmtTime(t.BlockTime), want)
 			return
 		}
-		// R4 is enforced through the stub: it refuses SendTx without an active channel or a matching capability,
-		// so an accepted SubmitTx implies both existed; check the journal agrees
+		// R4: nothing is sent without an active channel (the fake controller refuses, as the real one does)
+		// or without the module owning that channel's capability (only the module itself can know)
+		if !p.CapOwned {
+			w.Violate("R4", "sent-without-channel-capability", "a packet went out on %s over %s although the module does not own the capability %s", p.Conn, p.Port, p.CapName)
+			return
+		}
 		if !strings.HasPrefix(p.CapName, "capabilities/ports/"+wantPort+"/channels/") {
 			w.Violate("R4", "sent-with-foreign-capability", "packet authenticated with capability %s", p.CapName)
 			return
